@@ -63,6 +63,16 @@ def gen_cases(tier, seed):
                  "currents": S.current_spec(rng, dev, o, ["const", "callable", "decimal"][k % 3] if nt else "none", strength=0.1),
                  "epsilon": {"kind": ["one", "const", "spatial", "time"][k % 4], "value": 0.6}}
         cases.append({"kind": "solution", "device": dev, "options": o, "drive": drive, "seed": int(rng.integers(1 << 30)), "cost": 8})
+    for k in range(2 if tier == "quick" else 8):
+        # memory-only Solution (temp output) of a screening run on a device without probe points: every per-step record that
+        # exists must survive to_hdf5 / from_hdf5 (screening_iterations exists, mu / theta do not)
+        dev = zoo.gen_device(rng, n_terminals=0, n_holes=int(k % 2), probes=0, size="tiny", smooth=0)
+        dev["layer"]["lam"], dev["layer"]["d"] = 2.0, 0.1
+        o = dict(solve_time=0.3, dt_init=1e-3, dt_max=0.02, adaptive=True, save_every=int([5, 1][k % 2]), field_units="mT", current_units="uA", output="temp",
+                 include_screening=True, screening_tolerance=1e-3, max_iterations_per_step=3000, terminal_psi=0.0, skip_time=0.0, max_solve_retries=10,
+                 adaptive_window=10, adaptive_time_step_multiplier=0.25, progress_interval=10**9)
+        drive = {"A": S.field_spec(rng, dev, o, "uniform", b=0.2), "currents": {"kind": "none"}, "epsilon": {"kind": "one"}}
+        cases.append({"kind": "solution", "device": dev, "options": o, "drive": drive, "seed": int(rng.integers(1 << 30)), "cost": 10})
     # expression trees through a Solution file
     d1 = c16.depth1()
     ops = list(c16.OPS)
